@@ -9,12 +9,14 @@
 (*   - Dec(Enc(v)) = v, consuming exactly the encoding;                    *)
 (*   - every block-layout variant decodes to v as well;                    *)
 (*   - every single-point malformation and every proper prefix of the      *)
-(*     encoding is rejected by the specification's decoder.                *)
+(*     encoding is rejected by the specification's decoder;                *)
+(*   - each canonical presentation of v (SerdeModel!Canon, three styles)   *)
+(*     must serialize and denotes exactly v.                               *)
 (* Each visited state is printed as one JSON line ("SCN") carrying the     *)
 (* value, its canonical encoding and the distinct layout variants: the     *)
 (* stimuli, with their expected outcome, replayed on the real code.        *)
 (***************************************************************************)
-EXTENDS AvroValues, Json, IOUtils, SequencesExt
+EXTENDS AvroValues, SerdeModel, Json, IOUtils, SequencesExt
 
 Scope   == ndJsonDeserialize(IOEnv.VERIF_SCOPE)
 NShards == atoi(IOEnv.VERIF_NSHARDS)
@@ -28,7 +30,8 @@ MkCase(i, v) ==
         enc == Enc(G, 1, v)
     IN  [si |-> i, sid |-> Scope[i].sid, v |-> v, enc |-> enc,
          lays |-> SetToSeq({EncWith(G, 1, v, L) : L \in LayoutChoices} \ {enc}),
-         mal |-> SetToSeq(Mal(G, 1, v))]
+         mal |-> SetToSeq(Mal(G, 1, v)),
+         pres |-> [named |-> Canon(G, 1, v, "named"), rust |-> Canon(G, 1, v, "rust"), bare |-> Canon(G, 1, v, "bare")]]
 
 Init == c = [si |-> 0]
 Next == /\ c.si = 0
@@ -43,6 +46,9 @@ CaseOk ==
     /\ \A j \in 1..Len(c.lays) : IsEncodingOf(G, c.lays[j], c.v)
     /\ \A j \in 1..Len(c.mal) : DecAll(G, c.mal[j]).st = "err"
     /\ \A j \in 0..(Len(c.enc) - 1) : DecAll(G, SubSeq(c.enc, 1, j)).st = "err"      \* premature end of input
+    \* every canonical presentation must serialize, and denotes exactly v (C01 <-> SerdeModel)
+    /\ \A st \in {"named", "rust", "bare"} :
+          LET d == Den(G, 1, c.pres[st], FALSE) IN d.m = "ok" /\ d.vs = {c.v} /\ ~d.any
 
 Emit == c.si = 0 \/ PrintT(<<"SCN", ToJson(c)>>)
 
